@@ -8,6 +8,7 @@ import Rare.Model.PipelineSkeleton
 import Rare.Gen.Skeleton
 import Rare.Proofs.AggLoopTrace
 import Rare.Proofs.C05Signal
+import Rare.Proofs.C05Logger
 /-!
 # C05 — race-free, atomic renders, complete final render
 
@@ -174,6 +175,57 @@ theorem signal_final_partial_counterexample :
     (.base _ _ (.sample _ 1 [] rfl))) (.base _ _ (.munlock _ rfl))) (.signal _ rfl))
     (.base _ _ (.handshake _ rfl rfl))) (.base _ _ (.final _ rfl))
   exact ⟨_, hr, rfl, rfl, by decide, by decide⟩
+
+/-! ## pkg/logger: errors reported by several goroutines while the terminal is live
+
+`Model/C05Logger.lean`: any number of printing goroutines (`RLock; logger.Print…; RUnlock`), one goroutine calling
+`DeferLogs` / `ImmediateLogs` (`Lock; …; Unlock`), every interleaving of their atomic steps. -/
+
+/-- Exclusion: while `DeferLogs` / `ImmediateLogs` holds the lock (switching the logger, flushing the buffer to
+    stderr) no goroutine is between its `RLock` and `RUnlock`, i.e. nobody prints into the buffer being flushed. -/
+theorem logger_flush_excludes_printers (script : Nat → List String) (ctl : List C05Logger.Ctl) {s : C05Logger.St}
+    (hr : C05Logger.Reach (C05Logger.init script ctl) s) (hw : s.writer.isSome = true) : ∀ i, (s.pr i).pc = 0 :=
+  (C05Logger.inv_reach hr).excl hw
+
+/-- Atomicity / nothing lost: in every reachable state stderr followed by the deferred buffer is exactly the
+    messages printed so far, whole and in the order they were printed; the buffer is empty unless logs are deferred;
+    and for every goroutine, what it has printed followed by what it still has to print is what it was given –
+    no message is lost, duplicated or reordered within a goroutine, however many goroutines report errors. -/
+theorem logger_nothing_lost (script : Nat → List String) (ctl : List C05Logger.Ctl) {s : C05Logger.St}
+    (hr : C05Logger.Reach (C05Logger.init script ctl) s) :
+    s.err ++ s.buf = s.emitted ∧ (s.deferred = false → s.buf = []) ∧
+    ∀ i, C05Logger.printedBy s.emitted i ++ (s.pr i).todo = script i :=
+  let h := C05Logger.inv_reach hr
+  ⟨h.emit, h.bufNil, h.per⟩
+
+/-- The deferred log is printed completely: once every goroutine has printed what it had to and the logger is back
+    in immediate mode (`ImmediateLogs` in the command's `After` hook), stderr holds every message of every goroutine,
+    each goroutine's messages in its program order, and the buffer is empty. -/
+theorem logger_final_flush_complete (script : Nat → List String) (ctl : List C05Logger.Ctl) {s : C05Logger.St}
+    (hr : C05Logger.Reach (C05Logger.init script ctl) s) (hdone : ∀ i, (s.pr i).todo = [])
+    (himm : s.deferred = false) : s.buf = [] ∧ s.err = s.emitted ∧ ∀ i, C05Logger.printedBy s.err i = script i := by
+  have h := C05Logger.inv_reach hr
+  have hb := h.bufNil himm
+  have he : s.err = s.emitted := by have := h.emit; rw [hb] at this; simpa using this
+  refine ⟨hb, he, fun i => ?_⟩
+  have := h.per i
+  rw [hdone i] at this
+  rw [he]; simpa using this
+
+/-- `ImmediateLogs` itself: the whole buffer goes to stderr in one piece, behind what is already there, and the
+    logger is in immediate mode afterwards. -/
+theorem logger_immediate_flushes (s : C05Logger.St) :
+    (C05Logger.ctlBody s .immediate).err ++ (C05Logger.ctlBody s .immediate).buf = s.err ++ s.buf ∧
+    (C05Logger.ctlBody s .immediate).deferred = false ∧
+    (s.deferred = true → (C05Logger.ctlBody s .immediate).buf = []) :=
+  C05Logger.ctlBody_immediate s
+
+/-- Non-vacuity: DeferLogs; goroutine 0 reports "e1" (it lands in the buffer, stderr stays empty); ImmediateLogs:
+    the message is on stderr, the buffer is empty, everybody is done. -/
+example : C05Logger.Reach C05Logger.Demo.t0 C05Logger.Demo.t7 ∧ (∀ i, (C05Logger.Demo.t7.pr i).todo = []) ∧
+    C05Logger.Demo.t7.deferred = false ∧ C05Logger.Demo.t7.err = [(0, "e1")] ∧ C05Logger.Demo.t7.buf = [] ∧
+    C05Logger.Demo.t4.buf = [(0, "e1")] ∧ C05Logger.Demo.t4.err = [] :=
+  C05Logger.Demo.demo
 
 /-- The aggregation-loop skeleton regenerated from /repo is the one the transition system models. -/
 theorem skeleton_matches_source :
